@@ -1995,9 +1995,9 @@ int32 matrixUnlockSessionTicket(ssl_t *ssl, unsigned char *in, int32 inLen)
     enc += SSL_HS_MASTER_SIZE;
 
     /* Check lifetime */
-    time = *enc << 24; enc++;
-    time += *enc << 16; enc++;
-    time += *enc << 8; enc++;
+    time = (uint32) *enc << 24; enc++;
+    time += (uint32) *enc << 16; enc++;
+    time += (uint32) *enc << 8; enc++;
     time += *enc; enc++;
 
     now = psGetTime(&t, ssl->userPtr);
